@@ -24,10 +24,11 @@ CFG = {'lean_modules': ['ObiVerif.Props.C12', 'ObiVerif.Props.C12S', 'ObiVerif.P
  'annotation parts) read by the real ReadNGSFilter and by the model of the reader; `sheetb` cases: the sheets from their BYTES — renderings of '
  'generated CSV records / old-format lines with byte-level decorations (mixed LF / CRLF, a lone CR at the end, no final newline, blank-only lines, '
  'blanks (space, tab, VT, FF) before any field incl. the first one where reader and detectors see different records, blanks after fields, indented '
- 'comments, double quotes inside bare fields, trailing commas, tab-separated old sheets detected as TSV, sheets padded beyond the 3072 bytes the '
- 'detectors look at with the inconsistency before / at / after the limit, exactly 3072 bytes), hand-picked texts, the sheet printed by `obimultiplex '
- '--template` (LF and CRLF); `wk` cases: 1..3 workers (-e in -1..4, --with-indels on / off) built one after the other on ONE library object read '
- 'from a generated sheet; non-trivial = distinct well-formed case'),
+ 'comments, double quotes inside bare fields, trailing commas, tab-separated old sheets, FASTQ / FASTA / EMBL / GenBank / ecoPCR look-alikes and '
+ "texts with 'binary' bytes (vertical tab, 0x01, 0x1f), sheets padded beyond the 3072 bytes the detectors look at with the inconsistency before / at "
+ '/ after the limit, exactly 3072 bytes), hand-picked texts, the sheet printed by `obimultiplex --template` (LF and CRLF); `wk` cases: 1..3 workers '
+ '(-e in -1..4, --with-indels on / off) built one after the other on ONE library object read from a generated sheet; non-trivial = distinct '
+ 'well-formed case'),
  'technique': ('Lean 4 theorems on a transcription of multimatch.go (distances, tag extractors, nearest-unique-tag loop, sample identification, the '
  'forward->reverse state machine) and of the semantic part of ngsfilter_read.go + the setters of ngslibrary.go / marker.go, of its byte-level layers '
  '(encoding/csv as configured by the reader and by the two detectors, the choice of the reader by mimetype.Detect on the first 3072 bytes, '
@@ -89,18 +90,18 @@ CFG = {'lean_modules': ['ObiVerif.Props.C12', 'ObiVerif.Props.C12S', 'ObiVerif.P
  'FROM ITS BYTES (Props/C12B.lean on Model/NgsFilterBytes.lean): csv_rendering_read_back (every rendering of records — blanks before any field, LF '
  'or CRLF per line, comment and empty lines anywhere — is read back by encoding/csv as configured by ReadCSVNGSFilter as exactly the declared '
  'records), csv_rendering_seen_by_detectors (the same without TrimLeadingSpace), rendering_reader_choice, '
- 'accepted_csv_sheet_is_declared_table_partial (PARTIAL: renderings shorter than the 3072-byte window and without tab: such a sheet goes to the CSV '
- 'reader iff its records have a constant number > 1 of fields, or those that are not @param lines do, and is then read from exactly the declared '
- 'records), old_rendering_read_back (_readLines returns the declared lines whatever the blanks around them, LF / CRLF, blank lines), '
- 'accepted_bytes_wellformed (a library returned for ANY bytes by either reader satisfies the hypotheses of never_wrong_sample). CHIMERAS '
- '(Props/C12M.lean): pair_yield_strand_symmetric (any read A ++ P1 ++ BC ++ P2 ++ B with ARBITRARY flanks A, B — other amplicons, lone sites, a tag '
- 'window reaching into the neighbour, a flank too short — and fixed-length or absent tags on both sides: the pair yields barcode / matches / error '
- 'counts / tags / identification as a function of (P1, BC, P2, the two tag windows), and the reverse-complemented read with the mirrored hits yields '
- 'the same amplicon, direction flipped, coordinates mirrored: with symmetric_class this is strand symmetry of whole chimeric reads for fixed tags), '
- 'pair_yield_depends_on_tag_windows_only; positional_gating_breaks_symmetry (the gating finding has a second, positional part that also fails when '
- 'BOTH direct primers hit: failing read on the real code in the corpus). GATED SEARCHES: gated_search_is_filter_on_separated_hits / '
- "gated_search_is_not_filter_in_general (on C10's model of FilterBestMatch: a search started at p is the filter of the whole-read search when the "
- 'raw hits are pairwise non-overlapping, and not in general).'),
+ 'accepted_csv_sheet_is_declared_table_partial (PARTIAL: renderings shorter than the 3072-byte window, that do not look like a sequence file and '
+ "hold no 'binary data byte': such a sheet goes to the CSV reader iff its records have a constant number > 1 of fields, or those that are not @param "
+ 'lines do, and is then read from exactly the declared records), old_rendering_read_back (_readLines returns the declared lines whatever the blanks '
+ 'around them, LF / CRLF, blank lines), accepted_bytes_wellformed (a library returned for ANY bytes by either reader satisfies the hypotheses of '
+ 'never_wrong_sample). CHIMERAS (Props/C12M.lean): pair_yield_strand_symmetric (any read A ++ P1 ++ BC ++ P2 ++ B with ARBITRARY flanks A, B — other '
+ 'amplicons, lone sites, a tag window reaching into the neighbour, a flank too short — and fixed-length or absent tags on both sides: the pair '
+ 'yields barcode / matches / error counts / tags / identification as a function of (P1, BC, P2, the two tag windows), and the reverse-complemented '
+ 'read with the mirrored hits yields the same amplicon, direction flipped, coordinates mirrored: with symmetric_class this is strand symmetry of '
+ 'whole chimeric reads for fixed tags), pair_yield_depends_on_tag_windows_only; positional_gating_breaks_symmetry (the gating finding has a second, '
+ 'positional part that also fails when BOTH direct primers hit: failing read on the real code in the corpus). GATED SEARCHES: '
+ "gated_search_is_filter_on_separated_hits / gated_search_is_not_filter_in_general (on C10's model of FilterBestMatch: a search started at p is the "
+ 'filter of the whole-read search when the raw hits are pairwise non-overlapping, and not in general).'),
  'level_note': ('Trusted: Lean kernel; the transcriptions Model/Demux.lean and Model/NgsFilter.lean; the primer matcher (hits are data, C10). The model `gate` of '
  'the gated searches used by symmetric_class / symmetric_iff_ungated (a search started at position p returns the hits of the whole read starting at '
  'p or after) is NOT a property of the matcher (FilterBestMatch keeps one representative per chain of overlapping raw hits, and the chains seen from '
@@ -124,18 +125,26 @@ CFG = {'lean_modules': ['ObiVerif.Props.C12', 'ObiVerif.Props.C12S', 'ObiVerif.P
  'of unidentified reads is compared as (id, sequence, error text). The sheet reader is modelled from the BYTES (sheetb cases) for texts in which no '
  'CSV field starts with a double quote (a quoted field is the explicit outcome `unmodelled`, never generated; with LazyQuotes a quote inside a bare '
  'field is an ordinary byte): encoding/csv comments / empty lines / TrimLeadingSpace / CRLF, the 3072-byte window of the detectors with its dropped '
- 'last line, the generic text/csv and tab-separated-values detectors and NGSFilterCsvDetector in the order of the mimetype tree, _readLines. Not '
- 'modelled: the other children of text/plain (html, xml, php, js, lua, perl, python, json, ndjson, rtf, srt, tcl, vcard, icalendar, warc, vtt) and '
- 'the binary formats — the text is assumed to be plain ASCII that none of them recognises. The read-back theorems are stated for renderings with a '
- 'final line terminator (no final newline, a lone final CR: correspondence only) and accepted_csv_sheet_is_declared_table_partial for renderings '
- 'below the 3072-byte window without tab (beyond: modelled and tied, not in the theorem); the annotation part of the old format is modelled for the '
- 'sub-grammar key=word; only (ParseOBIFeatures is C02); text is ASCII. In the record-level model (sheet cases) a CSV text that is not detected as '
- 'CSV is assumed to be rejected by the old reader; the byte-level model (sheetb cases) sends it to the old reader and reads its lines. Observation '
- '(not a property violation, no patch): OBIMimeNGSFilterTypeGuesser registers one more CSV detector in the global mimetype tree at every call, so '
- 'repeated readings get slower (the harness reads each sheet once per library). obimultiplex command level: --allowed-mismatches / --with-indels → '
- 'library parameters is modelled (applyOpts) and tied on the real worker constructor (wk cases, incl. several constructions on one object); '
- "--keep-errors / --unidentified are modelled (route) and tied through the command's own option parser and IExtractBarcode; the template printed by "
- '--template is read by the real reader and by the byte-level model (LF and CRLF). Open finding (code left as it is, modelled as it is, theorems '
+ 'last line, and the choice of the reader IN THE STATE OF THE MIMETYPE TREE OF THE RUNNING COMMAND (whichReader): the tree is process-global and '
+ 'both guessers of obiformats extend it, in front, at every call; obimultiplex opens its input (OBIMimeTypeGuesser: FASTQ / FASTA / EMBL / '
+ "GenBank-prefix / ecoPCR detectors and a csv detector attached to the ROOT, asked even for data with 'binary' bytes such as a vertical tab) before "
+ "it reads the sheet, so a sheet that looks like a sequence file (e.g. '@param,…' followed by one line without blank, or by a line starting with "
+ "'+': FASTQ) goes to the old reader, a constant-width CSV is text/csv whatever its bytes, and only then magic.Text and NGSFilterCsvDetector are "
+ 'asked; tab-separated-values / plain text / octet-stream all go to the old reader. The harness pins that state once per process (OBSERVATION, no '
+ 'patch: in a process that has not opened a sequence file, ReadNGSFilter sends a constant-width CSV holding a vertical tab to the old reader, which '
+ 'rejects it; the answer of a library function depends on what the process did before). Not modelled: the second form of the GenBank detector (a '
+ "first line '… Genetic Sequence Data Bank'), the other children of text/plain (html, xml, php, js, lua, perl, python, json, ndjson, rtf, srt, tcl, "
+ 'vcard, icalendar, warc, vtt) and the formats recognised by magic numbers — the text is assumed to be ASCII that none of them recognises. The '
+ 'read-back theorems are stated for renderings with a final line terminator (no final newline, a lone final CR: correspondence only) and '
+ 'accepted_csv_sheet_is_declared_table_partial for renderings below the 3072-byte window that do not look like a sequence file and hold no binary '
+ 'byte (beyond the window: modelled and tied, not in the theorem); the annotation part of the old format is modelled for the sub-grammar key=word; '
+ 'only (ParseOBIFeatures is C02); text is ASCII. In the record-level model (sheet cases) a CSV text that is not detected as CSV is assumed to be '
+ 'rejected by the old reader; the byte-level model (sheetb cases) sends it to the old reader and reads its lines. Observation (not a property '
+ 'violation, no patch): OBIMimeNGSFilterTypeGuesser registers one more CSV detector in the global mimetype tree at every call, so repeated readings '
+ 'get slower (the harness reads each sheet once per library). obimultiplex command level: --allowed-mismatches / --with-indels → library parameters '
+ 'is modelled (applyOpts) and tied on the real worker constructor (wk cases, incl. several constructions on one object); --keep-errors / '
+ "--unidentified are modelled (route) and tied through the command's own option parser and IExtractBarcode; the template printed by --template is "
+ 'read by the real reader and by the byte-level model (LF and CRLF). Open finding (code left as it is, modelled as it is, theorems '
  'gating_breaks_symmetry and positional_gating_breaks_symmetry; KEPT after measurement: removing the gating costs a fourth whole-read scan per '
  'marker on every ordinary read — 3 -> 4 scans, 2 -> 4 on reads without site; measured 11 -> 23 us per read for the scans of the template library on '
  "the loaded machine, the whole worker taking ~30 us — and a fix limited to 'scan the complemented primer when the direct one misses' costs the same "
@@ -149,12 +158,14 @@ CFG = {'lean_modules': ['ObiVerif.Props.C12', 'ObiVerif.Props.C12S', 'ObiVerif.P
  'pkg/obingslibrary/verif_hooks.go (read-only accessors to the compiled patterns, the sample table and the two private scanners)',
  'the sheet renderers (markers -> text, CSV records -> text) and the reference identification (naive Hamming / memoised recursive edit distance / '
  'unique minimiser) of the harness',
- 'encoding/csv quoted fields, and the children of text/plain other than text/csv, text/tab-separated-values and the ngsfilter extension in mimetype '
- 'detection (not modelled: texts are plain ASCII without a field starting with a double quote)',
+ 'encoding/csv quoted fields, and the second form of the GenBank detector, the children of text/plain other than text/csv and the ngsfilter '
+ 'extension, and the magic-number formats in mimetype detection (not modelled: texts are plain ASCII without a field starting with a double quote)',
  'harness/c12_multi.go reaches the unexported option variable obimultiplex._UnidentifiedFile through go:linkname to clear -u between cases (the '
  "option parser cannot); every other option goes through the command's own parser",
  'Model/TaxLoad.lean (rawLines, csvLine, splitOn, trimLeft: the line / field layer of encoding/csv and bufio written for C14) and Model/Apat.lean '
- 'filterBest (C10) are imported, not re-derived'],
+ 'filterBest (C10) are imported, not re-derived',
+ 'the harness calls obiformats.OBIMimeTypeGuesser once per process before any sheet is read, to put the process-global mimetype tree in the state it '
+ 'has when obimultiplex reads its sheet'],
  'modelled': ('pkg/obingslibrary multimatch.go (Hamming, Levenshtein, lookForTag, lookForRescueTag, begin/end Fixed/Delimited/Rescue tag extractors, '
  'TagExtractor, ClosestForwardTag/ClosestReverseTag, SampleIdentifier, ExtractMultiBarcode), marker.go (CheckTagLength, GetPCR, the Set… setters, '
  'normalizeTagDelimiter), ngslibrary.go (GetMarker, CheckPrimerUnicity, Set… / Set…For); ExtractMultiBarcodeSliceWorker (options -> parameters -> '
